@@ -3,11 +3,14 @@ package props
 import (
 	"fmt"
 	"go/ast"
+	"go/constant"
 	"go/token"
 	"go/types"
 	"regexp"
 	"sort"
 	"strings"
+
+	"golang.org/x/tools/go/cfg"
 
 	"verif/sa/core"
 )
@@ -16,126 +19,643 @@ func init() { register("C02", c02) }
 
 const optVisitAfter = "internal/runtime/compiler/opt.(*optimiser).VisitAfter"
 
-type foldEntry struct {
-	lk, rk, op string
-	assign     *ast.AssignStmt // r.X = expr
-	target     string
-	expr       string // normalised over a, b
-	resKind    string // kind of the literal r
-	clause     *ast.CaseClause
-}
-
 var spaceRe = regexp.MustCompile(`\s+`)
 
 func nospace(s string) string { return spaceRe.ReplaceAllString(s, "") }
 
-// extractFolds reads the (lhs kind, rhs kind, operator) -> expression table out of opt.VisitAfter.
-func extractFolds(c *core.Check, f *core.Func) ([]foldEntry, []string) {
-	var out []foldEntry
-	var problems []string
-	info := f.Info()
-	litKind := func(e ast.Expr) string {
-		s := typeStr(info.TypeOf(e))
-		switch {
-		case strings.HasSuffix(s, "ast.IntLit"):
-			return "Int"
-		case strings.HasSuffix(s, "ast.FloatLit"):
-			return "Float"
-		}
-		return ""
-	}
-	var walkL func(ts *ast.TypeSwitchStmt, side string, lk string, lvar, rvar string)
-	handleOps := func(body []ast.Stmt, lk, rk, lvar, rvar string) {
-		// find r := &ast.XLit{…} and the switch n.Op
-		resKind, rname := "", ""
-		for _, st := range body {
-			if as, ok := st.(*ast.AssignStmt); ok && as.Tok == token.DEFINE && len(as.Lhs) == 1 {
-				if k := litKind(as.Rhs[0]); k != "" {
-					resKind, rname = k, exprStr(as.Lhs[0])
-				}
-			}
-			sw, ok := st.(*ast.SwitchStmt)
-			if !ok || sw.Tag == nil || !strings.HasSuffix(exprStr(sw.Tag), ".Op") {
-				continue
-			}
-			for _, cl := range sw.Body.List {
-				cc := cl.(*ast.CaseClause)
-				for _, e := range cc.List {
-					op := opName(e)
-					fe := foldEntry{lk: lk, rk: rk, op: op, resKind: resKind, clause: cc}
-					n := 0
-					ast.Inspect(cc, func(x ast.Node) bool {
-						as, ok := x.(*ast.AssignStmt)
-						if !ok || len(as.Lhs) != 1 || len(as.Rhs) != 1 {
-							return true
-						}
-						if sel, ok := as.Lhs[0].(*ast.SelectorExpr); ok && (sel.Sel.Name == "I" || sel.Sel.Name == "F") {
-							n++
-							fe.assign = as
-							fe.target = exprStr(as.Lhs[0])
-							ex := nospace(exprStr(as.Rhs[0]))
-							ex = strings.ReplaceAll(ex, lvar+".I", "a")
-							ex = strings.ReplaceAll(ex, lvar+".F", "a")
-							ex = strings.ReplaceAll(ex, rvar+".I", "b")
-							ex = strings.ReplaceAll(ex, rvar+".F", "b")
-							fe.expr = ex
-						}
-						return true
-					})
-					if n != 1 {
-						problems = append(problems, fmt.Sprintf("%s: fold clause %s×%s %s has %d result assignments", c.Prog.Position(cc.Pos()), lk, rk, op, n))
-					}
-					_ = rname
-					out = append(out, fe)
-				}
-			}
+// ---- generic structural helpers (shared with C01) -------------------------
+
+// singleDefs lists the local variables of body that are defined exactly once
+// (`x := e`, `x, y := e1, e2`, `var x = e`) and never assigned, incremented,
+// ranged over or address-taken afterwards, with their defining expression.
+// Such a variable is a name for its definition.
+func singleDefs(info *types.Info, body ast.Node) map[types.Object]ast.Expr {
+	def := map[types.Object]ast.Expr{}
+	n := map[types.Object]int{}
+	kill := func(e ast.Expr) {
+		if o := identObj(info, e); o != nil {
+			n[o] += 2
 		}
 	}
-	walkL = func(ts *ast.TypeSwitchStmt, side, lk, lvar, rvar string) {
-		as, ok := ts.Assign.(*ast.AssignStmt)
-		if !ok {
-			return
-		}
-		v := exprStr(as.Lhs[0])
-		for _, cl := range ts.Body.List {
-			cc := cl.(*ast.CaseClause)
-			for _, e := range cc.List {
-				k := litKind(e)
-				if k == "" {
+	ast.Inspect(body, func(x ast.Node) bool {
+		switch s := x.(type) {
+		case *ast.AssignStmt:
+			for i, l := range s.Lhs {
+				id, ok := core.Unparen(l).(*ast.Ident)
+				if !ok {
 					continue
 				}
-				if side == "L" {
-					for _, st := range cc.Body {
-						if inner, ok := st.(*ast.TypeSwitchStmt); ok {
-							walkL(inner, "R", k, v, "")
-						}
-					}
+				if s.Tok == token.DEFINE && info.Defs[id] != nil && len(s.Lhs) == len(s.Rhs) {
+					o := info.Defs[id]
+					n[o]++
+					def[o] = s.Rhs[i]
+					continue
+				}
+				kill(id)
+			}
+		case *ast.ValueSpec:
+			for i, id := range s.Names {
+				o := info.Defs[id]
+				if o == nil {
+					continue
+				}
+				if len(s.Values) == len(s.Names) {
+					n[o]++
+					def[o] = s.Values[i]
 				} else {
-					handleOps(cc.Body, lk, k, lvar, v)
+					n[o] += 2
 				}
 			}
-		}
-	}
-	ast.Inspect(f.Body, func(n ast.Node) bool {
-		if cc, ok := n.(*ast.CaseClause); ok {
-			for _, e := range cc.List {
-				if strings.HasSuffix(exprStr(e), "ast.BinaryExpr") {
-					for _, st := range cc.Body {
-						if ts, ok := st.(*ast.TypeSwitchStmt); ok {
-							walkL(ts, "L", "", "", "")
-						}
-					}
-					return false
-				}
+		case *ast.IncDecStmt:
+			kill(s.X)
+		case *ast.RangeStmt:
+			if s.Key != nil {
+				kill(s.Key)
+			}
+			if s.Value != nil {
+				kill(s.Value)
+			}
+		case *ast.UnaryExpr:
+			if s.Op == token.AND {
+				kill(s.X)
 			}
 		}
 		return true
 	})
-	return out, problems
+	out := map[types.Object]ast.Expr{}
+	for o, e := range def {
+		if n[o] == 1 && e != nil {
+			out[o] = e
+		}
+	}
+	return out
+}
+
+// throughDefs follows single-definition locals: the expression a local stands for.
+func throughDefs(info *types.Info, defs map[types.Object]ast.Expr, e ast.Expr) ast.Expr {
+	for i := 0; i < 8; i++ {
+		e = core.Unparen(e)
+		id, ok := e.(*ast.Ident)
+		if !ok {
+			return e
+		}
+		d, ok := defs[identObj(info, id)]
+		if !ok {
+			return e
+		}
+		e = d
+	}
+	return e
+}
+
+// symCtx renders expressions canonically: identifiers are resolved through
+// go/types objects, single-definition locals are replaced by their definition,
+// `leaf` names the sub-expressions that stand for operands, every nested
+// binary expression is parenthesised and no white space is written.
+type symCtx struct {
+	info *types.Info
+	defs map[types.Object]ast.Expr
+	leaf func(ast.Expr) (string, bool)
+}
+
+func (sx *symCtx) top(e ast.Expr) string {
+	s := sx.str(e, 0)
+	// strip one pair of parentheses that encloses the whole rendering
+	if strings.HasPrefix(s, "(") && strings.HasSuffix(s, ")") {
+		depth := 0
+		for i := 0; i < len(s); i++ {
+			switch s[i] {
+			case '(':
+				depth++
+			case ')':
+				depth--
+				if depth == 0 && i != len(s)-1 {
+					return s
+				}
+			}
+		}
+		return s[1 : len(s)-1]
+	}
+	return s
+}
+
+func (sx *symCtx) leafOf(e ast.Expr) (string, bool) {
+	if sx.leaf == nil {
+		return "", false
+	}
+	return sx.leaf(e)
+}
+
+func (sx *symCtx) str(e ast.Expr, depth int) string {
+	e = core.Unparen(e)
+	if s, ok := sx.leafOf(e); ok {
+		return s
+	}
+	switch x := e.(type) {
+	case *ast.Ident:
+		obj := identObj(sx.info, x)
+		if d, ok := sx.defs[obj]; ok && depth < 8 {
+			return sx.str(d, depth+1)
+		}
+		if obj != nil && obj.Pkg() != nil && obj.Parent() == obj.Pkg().Scope() {
+			return obj.Pkg().Name() + "." + obj.Name()
+		}
+		return x.Name
+	case *ast.SelectorExpr:
+		if id, ok := x.X.(*ast.Ident); ok {
+			if _, isPkg := sx.info.Uses[id].(*types.PkgName); isPkg {
+				if obj := sx.info.Uses[x.Sel]; obj != nil && obj.Pkg() != nil {
+					return obj.Pkg().Name() + "." + obj.Name()
+				}
+			}
+		}
+		return sx.str(x.X, depth) + "." + x.Sel.Name
+	case *ast.BinaryExpr:
+		return "(" + sx.str(x.X, depth) + x.Op.String() + sx.str(x.Y, depth) + ")"
+	case *ast.UnaryExpr:
+		return x.Op.String() + sx.str(x.X, depth)
+	case *ast.StarExpr:
+		return "*" + sx.str(x.X, depth)
+	case *ast.CallExpr:
+		var as []string
+		for _, a := range x.Args {
+			as = append(as, sx.top(a))
+		}
+		return sx.str(x.Fun, depth) + "(" + strings.Join(as, ",") + ")"
+	case *ast.IndexExpr:
+		return sx.str(x.X, depth) + "[" + sx.top(x.Index) + "]"
+	case *ast.BasicLit:
+		return x.Value
+	}
+	return nospace(exprStr(e))
+}
+
+// tri is a three-valued truth value.
+type tri int
+
+const (
+	triU tri = iota
+	triT
+	triF
+)
+
+func (t tri) not() tri {
+	switch t {
+	case triT:
+		return triF
+	case triF:
+		return triT
+	}
+	return triU
+}
+
+// evalCond evaluates a boolean expression in three-valued logic; atom gives
+// the value of the sub-expressions it knows (tested before decomposition).
+func evalCond(info *types.Info, defs map[types.Object]ast.Expr, e ast.Expr, atom func(ast.Expr) tri) tri {
+	e = throughDefs(info, defs, e)
+	if v := atom(e); v != triU {
+		return v
+	}
+	if v, ok := constBool(info, e); ok {
+		if v {
+			return triT
+		}
+		return triF
+	}
+	switch x := e.(type) {
+	case *ast.UnaryExpr:
+		if x.Op == token.NOT {
+			return evalCond(info, defs, x.X, atom).not()
+		}
+	case *ast.BinaryExpr:
+		switch x.Op {
+		case token.LAND:
+			a, b := evalCond(info, defs, x.X, atom), evalCond(info, defs, x.Y, atom)
+			if a == triF || b == triF {
+				return triF
+			}
+			if a == triT && b == triT {
+				return triT
+			}
+		case token.LOR:
+			a, b := evalCond(info, defs, x.X, atom), evalCond(info, defs, x.Y, atom)
+			if a == triT || b == triT {
+				return triT
+			}
+			if a == triF && b == triF {
+				return triF
+			}
+		case token.EQL, token.NEQ:
+			// comparison of a boolean with a boolean constant
+			for _, p := range [][2]ast.Expr{{x.X, x.Y}, {x.Y, x.X}} {
+				if cv, ok := constBool(info, p[1]); ok {
+					v := evalCond(info, defs, p[0], atom)
+					if !cv {
+						v = v.not()
+					}
+					if x.Op == token.NEQ {
+						v = v.not()
+					}
+					return v
+				}
+			}
+		}
+	}
+	return triU
+}
+
+// factEdges classifies the two-way branches of g with respect to a fact Z:
+// atom(e, z) must return the value of the atomic sub-expression e under the
+// assumption Z = z (triU if e does not depend on Z).  The result maps each
+// branching block to what each outgoing edge implies: +1 = Z holds, -1 = Z
+// does not hold, 0 = nothing.
+func factEdges(g *core.Graph, defs map[types.Object]ast.Expr, atom func(e ast.Expr, z bool) tri) map[*cfg.Block][2]int {
+	info := g.F.Info()
+	out := map[*cfg.Block][2]int{}
+	for _, b := range g.C.Blocks {
+		if !b.Live || len(b.Succs) != 2 || len(b.Nodes) == 0 {
+			continue
+		}
+		cond, ok := b.Nodes[len(b.Nodes)-1].(ast.Expr)
+		if !ok {
+			continue
+		}
+		if t := info.TypeOf(cond); t == nil || !types.Identical(t.Underlying(), types.Typ[types.Bool]) && !types.Identical(t.Underlying(), types.Typ[types.UntypedBool]) {
+			continue
+		}
+		ifZ := evalCond(info, defs, cond, func(e ast.Expr) tri { return atom(e, true) })
+		ifNotZ := evalCond(info, defs, cond, func(e ast.Expr) tri { return atom(e, false) })
+		var r [2]int
+		// edge 0 is taken when cond is true, edge 1 when it is false; a condition that does not depend on Z says nothing
+		if ifNotZ == triF && ifZ != triF { // cond true is impossible without Z
+			r[0] = +1
+		} else if ifZ == triF && ifNotZ != triF {
+			r[0] = -1
+		}
+		if ifNotZ == triT && ifZ != triT { // cond false is impossible without Z
+			r[1] = +1
+		} else if ifZ == triT && ifNotZ != triT {
+			r[1] = -1
+		}
+		if r != [2]int{} {
+			out[b] = r
+		}
+	}
+	return out
+}
+
+// reachableWithout reports a path from the entry of g to the point `to` that
+// takes no edge on which the fact has the given sign.
+func reachableWithout(g *core.Graph, edges map[*cfg.Block][2]int, sign int, to core.Point) ([]string, bool) {
+	tr, ok := g.Search(core.Query{Goal: core.At(to), AvoidEdge: func(b *cfg.Block, si int) bool {
+		r, has := edges[b]
+		return has && si < 2 && r[si] == sign
+	}})
+	return g.Trail(tr), ok
+}
+
+// selField resolves a selector expression to (field name, name of the struct type that declares the receiver), "" if it is not a field selection.
+func selField(info *types.Info, e ast.Expr) (field, recv string, x ast.Expr) {
+	sel, ok := core.Unparen(e).(*ast.SelectorExpr)
+	if !ok {
+		return "", "", nil
+	}
+	s := info.Selections[sel]
+	if s == nil || s.Kind() != types.FieldVal {
+		return "", "", nil
+	}
+	t := s.Recv()
+	if p, ok := t.(*types.Pointer); ok {
+		t = p.Elem()
+	}
+	return s.Obj().Name(), typeStr(t), sel.X
+}
+
+// constName names the constant an expression denotes (the declared name, through any import alias), "" if none.
+func constName(info *types.Info, e ast.Expr) string {
+	if c, ok := usedObj(info, e).(*types.Const); ok {
+		return c.Name()
+	}
+	return ""
+}
+
+// isZeroConst reports whether e is a numeric constant equal to zero.
+func isZeroConst(info *types.Info, e ast.Expr) bool {
+	tv, ok := info.Types[e]
+	if !ok || tv.Value == nil {
+		return false
+	}
+	switch tv.Value.Kind() {
+	case constant.Int, constant.Float:
+		return constant.Sign(tv.Value) == 0
+	}
+	return false
+}
+
+// ---- the fold table ---------------------------------------------------------
+
+type foldEntry struct {
+	lk, rk, op string
+	assign     *ast.AssignStmt // <literal>.{I,F} = expr
+	target     string          // rendered assignment target
+	fresh      bool            // the target's base is a literal freshly built in this call
+	wantTarget string          // the fresh literal's field the clause should assign
+	expr       string          // normalised over a, b
+	resKind    string          // kind of the literal assigned to
+	clause     *ast.CaseClause // operator clause
+	rhsObj     types.Object    // variable bound to the right operand literal
+	rhsAliases map[types.Object]bool
+	point      core.Point
+}
+
+// operandBinding is a region of the function in which obj is the left or right operand, known to be a literal of the given kind.
+type operandBinding struct {
+	side, kind string
+	obj        types.Object
+	region     ast.Node
+}
+
+type foldTable struct {
+	f        *core.Func
+	defs     map[types.Object]ast.Expr
+	entries  []foldEntry
+	problems []string
+	fresh    map[types.Object]string // local -> kind, for locals defined as &ast.IntLit{…} / &ast.FloatLit{…}
+	binds    []operandBinding
+}
+
+func litKindOf(t types.Type) string {
+	s := typeStr(t)
+	switch {
+	case strings.HasSuffix(s, "compiler/ast.IntLit"):
+		return "Int"
+	case strings.HasSuffix(s, "compiler/ast.FloatLit"):
+		return "Float"
+	}
+	return ""
+}
+
+func posWithin(n ast.Node, p token.Pos) bool { return n != nil && n.Pos() <= p && p < n.End() }
+
+// extractFolds reads the (lhs kind, rhs kind, operator) -> expression table out of opt.VisitAfter.
+// Recognised family: the operand literals are bound by type-switch clauses (`switch l := n.LHS.(type) { case *ast.IntLit:`)
+// or comma-ok assertions in an if header, in any nesting order with the switch on the operator; operands may be read
+// through single-definition locals; every name is resolved through go/types.
+func extractFolds(c *core.Check, f *core.Func) *foldTable {
+	info := f.Info()
+	ft := &foldTable{f: f, defs: singleDefs(info, f.Body), fresh: map[types.Object]string{}}
+	sideOf := func(e ast.Expr) string {
+		fld, recv, _ := selField(info, throughDefs(info, ft.defs, e))
+		if strings.HasSuffix(recv, "compiler/ast.BinaryExpr") && (fld == "LHS" || fld == "RHS") {
+			return fld[:1]
+		}
+		return ""
+	}
+	// fresh literals
+	for o, d := range ft.defs {
+		d = core.Unparen(d)
+		if u, ok := d.(*ast.UnaryExpr); ok && u.Op == token.AND {
+			if cl, ok := core.Unparen(u.X).(*ast.CompositeLit); ok {
+				if k := litKindOf(info.TypeOf(cl)); k != "" {
+					ft.fresh[o] = k
+				}
+			}
+		}
+		if call, ok := d.(*ast.CallExpr); ok && f.CalleeID(call) == "builtin.new" && len(call.Args) == 1 {
+			if k := litKindOf(info.TypeOf(call.Args[0])); k != "" {
+				ft.fresh[o] = k
+			}
+		}
+	}
+	// operand bindings
+	ast.Inspect(f.Body, func(n ast.Node) bool {
+		switch s := n.(type) {
+		case *ast.TypeSwitchStmt:
+			var ta *ast.TypeAssertExpr
+			switch a := s.Assign.(type) {
+			case *ast.AssignStmt:
+				if len(a.Rhs) == 1 {
+					ta, _ = core.Unparen(a.Rhs[0]).(*ast.TypeAssertExpr)
+				}
+			case *ast.ExprStmt:
+				ta, _ = core.Unparen(a.X).(*ast.TypeAssertExpr)
+			}
+			if ta == nil {
+				return true
+			}
+			side := sideOf(ta.X)
+			if side == "" {
+				return true
+			}
+			for _, cl := range s.Body.List {
+				cc := cl.(*ast.CaseClause)
+				if len(cc.List) != 1 {
+					continue
+				}
+				if k := litKindOf(info.TypeOf(cc.List[0])); k != "" {
+					ft.binds = append(ft.binds, operandBinding{side, k, info.Implicits[cc], cc})
+				}
+			}
+		case *ast.IfStmt:
+			as, ok := s.Init.(*ast.AssignStmt)
+			if !ok || len(as.Lhs) != 2 || len(as.Rhs) != 1 {
+				return true
+			}
+			ta, ok := core.Unparen(as.Rhs[0]).(*ast.TypeAssertExpr)
+			if !ok || ta.Type == nil {
+				return true
+			}
+			side, k := sideOf(ta.X), litKindOf(info.TypeOf(ta.Type))
+			okObj := identObj(info, as.Lhs[1])
+			if side == "" || k == "" || okObj == nil || identObj(info, s.Cond) != okObj {
+				return true
+			}
+			ft.binds = append(ft.binds, operandBinding{side, k, identObj(info, as.Lhs[0]), s.Body})
+		}
+		return true
+	})
+	bindAt := func(p token.Pos, side string) *operandBinding {
+		var best *operandBinding
+		for i := range ft.binds {
+			b := &ft.binds[i]
+			if b.side == side && posWithin(b.region, p) && (best == nil || best.region.Pos() <= b.region.Pos()) {
+				best = b
+			}
+		}
+		return best
+	}
+	// operator clauses: clauses of a switch whose tag is the Op field of a BinaryExpr
+	type opClause struct {
+		cc   *ast.CaseClause
+		toks []string
+	}
+	var opClauses []opClause
+	ast.Inspect(f.Body, func(n ast.Node) bool {
+		sw, ok := n.(*ast.SwitchStmt)
+		if !ok || sw.Tag == nil {
+			return true
+		}
+		var tag ast.Expr = sw.Tag
+		if as, ok := sw.Init.(*ast.AssignStmt); ok && len(as.Lhs) == 1 && len(as.Rhs) == 1 && identObj(info, as.Lhs[0]) == identObj(info, tag) && identObj(info, tag) != nil {
+			tag = as.Rhs[0]
+		}
+		fld, recv, _ := selField(info, throughDefs(info, ft.defs, tag))
+		if fld != "Op" || !strings.HasSuffix(recv, "compiler/ast.BinaryExpr") {
+			return true
+		}
+		for _, cl := range sw.Body.List {
+			cc := cl.(*ast.CaseClause)
+			var toks []string
+			for _, e := range cc.List {
+				if name := constName(info, e); name != "" {
+					toks = append(toks, name)
+				} else {
+					toks = append(toks, opName(e))
+				}
+			}
+			if len(toks) > 0 {
+				opClauses = append(opClauses, opClause{cc, toks})
+			}
+		}
+		return true
+	})
+	opAt := func(p token.Pos) *opClause {
+		var best *opClause
+		for i := range opClauses {
+			oc := &opClauses[i]
+			if posWithin(oc.cc, p) && (best == nil || best.cc.Pos() <= oc.cc.Pos()) {
+				best = oc
+			}
+		}
+		return best
+	}
+	// result assignments: <x>.I / <x>.F of an IntLit / FloatLit
+	g := f.Graph()
+	nIn := map[*ast.CaseClause]int{}
+	seen := map[string]bool{}
+	for _, h := range g.Find(func(n ast.Node) bool { _, ok := n.(*ast.AssignStmt); return ok }) {
+		as := h.N.(*ast.AssignStmt)
+		if len(as.Lhs) != len(as.Rhs) {
+			continue
+		}
+		for i, l := range as.Lhs {
+			fld, recv, base := selField(info, l)
+			kind := ""
+			switch {
+			case fld == "I" && strings.HasSuffix(recv, "compiler/ast.IntLit"):
+				kind = "Int"
+			case fld == "F" && strings.HasSuffix(recv, "compiler/ast.FloatLit"):
+				kind = "Float"
+			default:
+				continue
+			}
+			where := c.Prog.Position(as.Pos())
+			oc := opAt(as.Pos())
+			lb, rb := bindAt(as.Pos(), "L"), bindAt(as.Pos(), "R")
+			if oc == nil || lb == nil || rb == nil {
+				ft.problems = append(ft.problems, fmt.Sprintf("%s: literal value assigned outside a recognised (left literal, right literal, operator) context", where))
+				continue
+			}
+			nIn[oc.cc]++
+			aliases := func(b *operandBinding) map[types.Object]bool {
+				m := map[types.Object]bool{}
+				if b.obj != nil {
+					m[b.obj] = true
+				}
+				return m
+			}
+			la, ra := aliases(lb), aliases(rb)
+			sx := &symCtx{info: info, defs: ft.defs}
+			sx.leaf = func(e ast.Expr) (string, bool) {
+				fl, rc, x := selField(info, e)
+				if (fl == "I" && strings.HasSuffix(rc, "compiler/ast.IntLit")) || (fl == "F" && strings.HasSuffix(rc, "compiler/ast.FloatLit")) {
+					o := identObj(info, throughDefs(info, ft.defs, x))
+					if o != nil && la[o] {
+						return "a", true
+					}
+					if o != nil && ra[o] {
+						return "b", true
+					}
+				}
+				return "", false
+			}
+			baseObj := identObj(info, base)
+			fe := foldEntry{lk: lb.kind, rk: rb.kind, assign: as, target: exprStr(l), resKind: kind, clause: oc.cc,
+				expr: sx.top(as.Rhs[i]), rhsObj: rb.obj, point: h.P}
+			if k, isFresh := ft.fresh[baseObj]; isFresh && k == kind {
+				fe.fresh = true
+			}
+			// the fresh literal of the innermost operand region, for the message
+			inner := lb.region
+			if rb.region.Pos() >= lb.region.Pos() {
+				inner = rb.region
+			}
+			for o, k := range ft.fresh {
+				if posWithin(inner, o.Pos()) {
+					fe.wantTarget = o.Name() + "." + map[string]string{"Int": "I", "Float": "F"}[k]
+				}
+			}
+			for _, t := range oc.toks {
+				e := fe
+				e.op = t
+				key := e.lk + " " + e.op + " " + e.rk
+				if seen[key] {
+					ft.problems = append(ft.problems, fmt.Sprintf("%s: second result assignment for %s", where, key))
+					continue
+				}
+				seen[key] = true
+				ft.entries = append(ft.entries, e)
+			}
+		}
+	}
+	for _, oc := range opClauses {
+		if nIn[oc.cc] == 0 {
+			// a clause that folds nothing must leave the node alone: it is judged by R5's return rule
+			empty := true
+			ast.Inspect(oc.cc, func(n ast.Node) bool {
+				if r, ok := n.(*ast.ReturnStmt); ok && r != nil {
+					empty = false
+				}
+				return true
+			})
+			if empty && bindAt(oc.cc.Pos(), "L") != nil && bindAt(oc.cc.Pos(), "R") != nil {
+				ft.problems = append(ft.problems, fmt.Sprintf("%s: fold clause %v has 0 result assignments and no return", c.Prog.Position(oc.cc.Pos()), oc.toks))
+			}
+		}
+	}
+	sort.SliceStable(ft.entries, func(i, j int) bool { return ft.entries[i].assign.Pos() < ft.entries[j].assign.Pos() })
+	return ft
+}
+
+// zeroFactEdges classifies the branches of the folder with respect to "the right operand literal bound to obj is zero".
+func (ft *foldTable) zeroFactEdges(obj types.Object) map[*cfg.Block][2]int {
+	info := ft.f.Info()
+	isDivisor := func(e ast.Expr) bool {
+		fl, rc, x := selField(info, throughDefs(info, ft.defs, e))
+		if (fl == "I" && strings.HasSuffix(rc, "compiler/ast.IntLit")) || (fl == "F" && strings.HasSuffix(rc, "compiler/ast.FloatLit")) {
+			return obj != nil && identObj(info, throughDefs(info, ft.defs, x)) == obj
+		}
+		return false
+	}
+	// locals defined in an if/switch header (`if d := rhs.I; d == 0`) are single definitions too and already in defs
+	return factEdges(ft.f.Graph(), ft.defs, func(e ast.Expr, z bool) tri {
+		be, ok := e.(*ast.BinaryExpr)
+		if !ok || (be.Op != token.EQL && be.Op != token.NEQ) {
+			return triU
+		}
+		if !(isDivisor(be.X) && isZeroConst(info, be.Y)) && !(isDivisor(be.Y) && isZeroConst(info, be.X)) {
+			return triU
+		}
+		v := triF
+		if z == (be.Op == token.EQL) {
+			v = triT
+		}
+		return v
+	})
 }
 
 func c02(c *core.Check) {
-	c.Explain = "Translation validation of the constant folder's own table against the VM's arithmetic, from /repo's current source: (R1) for every (literal kind, literal kind, operator) clause of the optimiser the folded expression, normalised over operands a and b, is syntactically the expression the unfolded program computes — the push expression of the VM opcode that the code generator's typedOperators table selects for the result type, with int operands wrapped in the VM's own int-to-float conversion; (R2) each clause assigns the field of the fresh result literal that matches its kind exactly once and never writes to an operand; (R3) the folder reports an error only under a test that the divisor literal equals zero inside a DIV or MOD clause; (R4) the compiler runs the folder only when optimisation is enabled; (R5) the optimiser does nothing but fold: it builds only Int/Float literals, returns only the unchanged node or the fresh literal, and never rewrites other nodes (no re-association). Because both sides then evaluate the same Go expression on the same operands, results and runtime errors are identical for all literal values. Not decided: identity of floating-point evaluation at compile time vs run time (same machine, same operations)."
+	c.Explain = "Translation validation of the constant folder's own table against the VM's arithmetic, from /repo's current source: (R1) for every (literal kind, literal kind, operator) clause of the optimiser the folded expression, normalised over operands a and b, is syntactically the expression the unfolded program computes — the push expression of the VM opcode that the code generator's typedOperators table selects for the result type, with int operands wrapped in the VM's own int-to-float conversion; (R2) each clause assigns the field of the fresh result literal that matches its kind exactly once and never writes to an operand; (R3) the folder reports an error only under a test that the divisor literal equals zero inside a DIV or MOD clause; (R4) the compiler runs the folder only when optimisation is enabled; (R5) the optimiser does nothing but fold: it builds only Int/Float literals, returns only the unchanged node or the fresh literal, and never rewrites other nodes (no re-association). Because both sides then evaluate the same Go expression on the same operands, results and runtime errors are identical for all literal values. Not decided: identity of floating-point evaluation at compile time vs run time (same machine, same operations). All names (receiver, parameters, locals, import aliases) are resolved through go/types; conditions are evaluated structurally (either operand order, negation, comparison with true/false, tests through single-definition locals) on the control-flow graph; helpers of package opt / compiler are followed through their resolved callees."
 	c.Assume = append(c.Assume, "the checker makes the result of mixed arithmetic Float and converts the Int operand with the I2f instruction", "Go evaluates the same expression identically in the compiler process and in the VM")
 	f := c.MustFn("C02-R1", optVisitAfter)
 	vm := extractVM(c)
@@ -143,38 +663,36 @@ func c02(c *core.Check) {
 		c.Undecided("C02-R1", optVisitAfter, "-", "cannot extract optimiser or VM tables")
 		return
 	}
-	folds, problems := extractFolds(c, f)
-	for _, p := range problems {
+	info := f.Info()
+	ft := extractFolds(c, f)
+	folds := ft.entries
+	for _, p := range ft.problems {
 		c.Undecided("C02-R2", "fold clause", "-", p)
 	}
 	_, _, typed := mapLiteralOpcodes(c, "internal/runtime/compiler/codegen", "typedOperators")
-	// VM push expression per opcode, over a (second pop) and b (first pop)
-	vmExpr := func(op string) (string, string) {
+	// VM push expression per opcode, over a (second pop) and b (first pop); alt is the operand-swapped form of a commutative + or *
+	vmDefs := singleDefs(vm.F.Info(), vm.F.Body)
+	vmExpr := func(op string) (expr, alt, why string) {
 		vc := vm.Cases[op]
 		if vc == nil {
-			return "", "no VM case"
+			return "", "", "no VM case"
 		}
 		if len(vc.Pops) < 2 || len(vc.Pushes) < 1 {
-			return "", "unexpected shape"
+			return "", "", "unexpected shape"
 		}
 		bVar, aVar := vc.Pops[0].Var, vc.Pops[1].Var
 		if aVar == nil || bVar == nil {
-			return "", "pops not bound to variables"
+			return "", "", "pops not bound to variables"
 		}
-		// the push that is not guarded by an error: take the last push of the clause
-		ex := nospace(exprStr(vc.Pushes[len(vc.Pushes)-1].Expr))
-		// rename identifiers by object
-		out := renameIdents(vm.F, vc.Pushes[len(vc.Pushes)-1].Expr, map[types.Object]string{aVar: "a", bVar: "b"})
-		_ = ex
-		return nospace(out), ""
+		return vmPushExpr(vm, vmDefs, vc.Pushes[len(vc.Pushes)-1].Expr, map[types.Object]string{aVar: "a", bVar: "b"})
 	}
 	i2f := ""
 	if ic := vm.Cases["I2f"]; ic != nil && len(ic.Pops) == 1 && len(ic.Pushes) == 1 && ic.Pops[0].Var != nil {
-		i2f = nospace(renameIdents(vm.F, ic.Pushes[0].Expr, map[types.Object]string{ic.Pops[0].Var: "X"}))
+		i2f, _, _ = vmPushExpr(vm, vmDefs, ic.Pushes[0].Expr, map[types.Object]string{ic.Pops[0].Var: "X"})
 	}
 	c.Extra["vm_int_to_float"] = i2f
 
-	c.Rule("C02-R1", "FOLD≡VM: normalised fold expression == VM push expression of typedOperators[op][result type], with int operands replaced by the VM's I2f expression; result literal kind == Int iff both operands are Int")
+	c.Rule("C02-R1", "FOLD≡VM: normalised fold expression == VM push expression of typedOperators[op][result type] (or its operand-swapped form for the commutative + and *), with int operands replaced by the VM's I2f expression; result literal kind == Int iff both operands are Int")
 	seen := map[string]bool{}
 	for _, fe := range folds {
 		key := fmt.Sprintf("%s %s %s", fe.lk, fe.op, fe.rk)
@@ -188,7 +706,7 @@ func c02(c *core.Check) {
 			c.Fail("C02-R1", key, pos(c, fe.clause), "the folder folds operator "+fe.op+" for which the code generator has no "+wantKind+" opcode")
 			continue
 		}
-		vx, why := vmExpr(opc)
+		vx, valt, why := vmExpr(opc)
 		if why != "" {
 			c.Undecided("C02-R1", key, pos(c, fe.clause), "VM case "+opc+": "+why)
 			continue
@@ -197,16 +715,24 @@ func c02(c *core.Check) {
 			c.Undecided("C02-R1", key, pos(c, fe.clause), "I2f expression not extracted")
 			continue
 		}
-		want := vx
-		if wantKind == "Float" {
-			if fe.lk == "Int" {
-				want = replaceIdent(want, "a", strings.ReplaceAll(i2f, "X", "a"))
+		conv := func(want string) string {
+			if want == "" {
+				return ""
 			}
-			if fe.rk == "Int" {
-				want = replaceIdent(want, "b", strings.ReplaceAll(i2f, "X", "b"))
+			if wantKind == "Float" {
+				ia, ib := "a", "b"
+				if fe.lk == "Int" {
+					ia = strings.ReplaceAll(i2f, "X", "a")
+				}
+				if fe.rk == "Int" {
+					ib = strings.ReplaceAll(i2f, "X", "b")
+				}
+				want = replaceIdent(replaceIdent(want, "a", ia), "b", ib)
 			}
+			return want
 		}
-		okExpr := fe.expr == want
+		want, wantAlt := conv(vx), conv(valt)
+		okExpr := fe.expr == want || (wantAlt != "" && fe.expr == wantAlt)
 		okKind := fe.resKind == wantKind
 		c.Verdict(okExpr && okKind, "C02-R1", key, pos(c, fe.clause), "folds to "+fe.expr+" = unfolded "+opc,
 			fmt.Sprintf("folding `%s %s %s` computes %s (as %s) but the unfolded program executes %s computing %s (as %s): optimised and unoptimised compiles give different results", fe.lk, fe.op, fe.rk, fe.expr, fe.resKind, opc, want, wantKind))
@@ -220,88 +746,153 @@ func c02(c *core.Check) {
 	c.Extra["fold_clauses"] = keys
 	c.Floor("C02-R1", 24)
 
-	c.Rule("C02-R2", "DEFINITE: each fold clause assigns exactly once, to the .I (Int) or .F (Float) field of the fresh result literal r, and to nothing else")
+	c.Rule("C02-R2", "DEFINITE: each fold clause assigns exactly once, to the .I (Int) or .F (Float) field of the fresh result literal (a local defined as &ast.IntLit{…} / &ast.FloatLit{…} in this call), and to nothing else")
 	for _, fe := range folds {
 		key := fmt.Sprintf("%s %s %s", fe.lk, fe.op, fe.rk)
 		if fe.assign == nil {
 			continue
 		}
-		want := "r." + map[string]string{"Int": "I", "Float": "F"}[fe.resKind]
-		c.Verdict(fe.target == want, "C02-R2", key, pos(c, fe.assign), "assigns "+want, "the clause stores its result in "+fe.target+" instead of "+want+": the returned literal keeps its zero value (the expression folds to 0) and an operand node is modified")
+		want := fe.wantTarget
+		if want == "" {
+			want = "the fresh result literal"
+		}
+		c.Verdict(fe.fresh, "C02-R2", key, pos(c, fe.assign), "assigns "+fe.target, "the clause stores its result in "+fe.target+" instead of "+want+": the returned literal keeps its zero value (the expression folds to 0) and an operand node is modified")
 	}
 	c.Floor("C02-R2", 24)
 
-	c.Rule("C02-R3", "ZERO-ONLY: every o.errors.Add in the optimiser is inside `if rhs.{I,F} == 0` within a DIV or MOD clause")
-	nerr := 0
-	ast.Inspect(f.Body, func(n ast.Node) bool {
-		call, ok := n.(*ast.CallExpr)
-		if !ok || !strings.HasSuffix(f.CalleeID(call), "errors.(*ErrorList).Add") {
+	c.Rule("C02-R3", "ZERO-ONLY: every place where the optimiser records an error (errors.Add, directly or through a helper of package opt) lies in a DIV or MOD clause and is reachable only along a branch that establishes `right literal == 0`; and no Int×Int DIV/MOD result assignment is reachable without passing a branch that establishes `right literal != 0`")
+	g := f.Graph()
+	const errAdd = "internal/runtime/compiler/errors.(*ErrorList).Add"
+	raises := c.Prog.Reaching(func(x *core.Func) bool {
+		return core.Rel(x.Pkg.PkgPath) == "internal/runtime/compiler/opt" && exprCalls(x, x.Body, errAdd)
+	})
+	isRaise := func(id string, call *ast.CallExpr) bool {
+		if id == errAdd {
 			return true
 		}
-		nerr++
-		okZero := false
-		for _, ic := range f.EnclosingIfs(call.Pos()) {
-			cond := nospace(exprStr(ic.If.Cond))
-			if ic.InThen && (cond == "rhs.I==0" || cond == "rhs.F==0") {
-				okZero = true
+		cf := f.CalleeFunc(call)
+		return cf != nil && cf != f && raises[cf] && core.Rel(cf.Pkg.PkgPath) == "internal/runtime/compiler/opt"
+	}
+	zeroEdges := map[types.Object]map[*cfg.Block][2]int{}
+	edgesFor := func(o types.Object) map[*cfg.Block][2]int {
+		if m, ok := zeroEdges[o]; ok {
+			return m
+		}
+		m := ft.zeroFactEdges(o)
+		zeroEdges[o] = m
+		return m
+	}
+	rhsAt := func(p token.Pos) types.Object {
+		var best *operandBinding
+		for i := range ft.binds {
+			b := &ft.binds[i]
+			if b.side == "R" && posWithin(b.region, p) && (best == nil || best.region.Pos() <= b.region.Pos()) {
+				best = b
 			}
 		}
-		okOp := inCase(f, call, "parser.DIV") || inCase(f, call, "parser.MOD")
-		c.Verdict(okZero && okOp, "C02-R3", fmt.Sprintf("error#%d", nerr), pos(c, call), "literal zero divisor only", "the optimiser rejects a program for something other than a division or modulus by a literal zero")
-		return true
-	})
+		if best == nil {
+			return nil
+		}
+		return best.obj
+	}
+	opToksAt := func(p token.Pos) []string {
+		var toks []string
+		var at token.Pos = -1
+		ast.Inspect(f.Body, func(n ast.Node) bool {
+			cc, ok := n.(*ast.CaseClause)
+			if !ok || !posWithin(cc, p) || cc.Pos() < at {
+				return true
+			}
+			var ts []string
+			for _, e := range cc.List {
+				if name := constName(info, e); name != "" {
+					if cn, ok := usedObj(info, e).(*types.Const); ok && cn.Pkg() != nil && strings.HasSuffix(cn.Pkg().Path(), "compiler/parser") {
+						ts = append(ts, name)
+					}
+				}
+			}
+			if len(ts) > 0 {
+				toks, at = ts, cc.Pos()
+			}
+			return true
+		})
+		return toks
+	}
+	nerr := 0
+	for _, h := range g.Calls(isRaise) {
+		call := h.N.(*ast.CallExpr)
+		nerr++
+		key := fmt.Sprintf("error#%d", nerr)
+		toks := opToksAt(call.Pos())
+		okOp := len(toks) > 0
+		for _, t := range toks {
+			if t != "DIV" && t != "MOD" {
+				okOp = false
+			}
+		}
+		ro := rhsAt(call.Pos())
+		if ro == nil {
+			c.Fail("C02-R3", key, pos(c, call), "the optimiser rejects a program for something other than a division or modulus by a literal zero (the error is raised where no right-hand literal is known)")
+			continue
+		}
+		tr, unguarded := reachableWithout(g, edgesFor(ro), +1, h.P)
+		c.Verdict(!unguarded && okOp, "C02-R3", key, pos(c, call), "literal zero divisor only", "the optimiser rejects a program for something other than a division or modulus by a literal zero", tr...)
+	}
+	// error-raising code of package opt outside VisitAfter must be a helper judged at its call sites in VisitAfter
+	for _, k := range c.Prog.SortedFuncKeys() {
+		of := c.Prog.Funcs[k]
+		if of == f || of.Lit != nil || core.Rel(of.Pkg.PkgPath) != "internal/runtime/compiler/opt" || c.Prog.IsTestSupport(of) || !raises[of] {
+			continue
+		}
+		c.Analysed(of)
+		// every caller in the module must be VisitAfter (judged above) or another such helper
+		for _, k2 := range c.Prog.SortedFuncKeys() {
+			cf := c.Prog.Funcs[k2]
+			if cf == f || c.Prog.IsTestSupport(cf) || (raises[cf] && core.Rel(cf.Pkg.PkgPath) == "internal/runtime/compiler/opt" && cf.Lit == nil) {
+				continue
+			}
+			ast.Inspect(cf.Body, func(n ast.Node) bool {
+				if call, ok := n.(*ast.CallExpr); ok && cf.CalleeFunc(call) == of {
+					nerr++
+					c.Undecided("C02-R3", fmt.Sprintf("error#%d", nerr), pos(c, call), "the error-recording helper "+of.Key+" is called from "+cf.Key+", outside the fold clauses: cannot decide under which condition the program is rejected")
+				}
+				return true
+			})
+		}
+	}
 	// and every DIV/MOD clause has the zero test before its assignment
 	for _, fe := range folds {
 		if fe.op != "DIV" && fe.op != "MOD" {
 			continue
 		}
-		has0 := false
-		ast.Inspect(fe.clause, func(n ast.Node) bool {
-			if is, ok := n.(*ast.IfStmt); ok {
-				cond := nospace(exprStr(is.Cond))
-				if (cond == "rhs.I==0" || cond == "rhs.F==0") && fe.assign != nil && is.End() <= fe.assign.Pos() {
-					if _, isRet := is.Body.List[len(is.Body.List)-1].(*ast.ReturnStmt); isRet {
-						has0 = true
-					}
-				}
-			}
-			return true
-		})
+		tr, unguarded := reachableWithout(g, edgesFor(fe.rhsObj), -1, fe.point)
 		key := fmt.Sprintf("%s %s %s zero test", fe.lk, fe.op, fe.rk)
 		if fe.lk == "Int" && fe.rk == "Int" {
-			c.Verdict(has0, "C02-R3", key, pos(c, fe.clause), "integer division by literal zero rejected before folding", "an integer division or modulus by a literal zero is folded (the compiler itself panics) instead of rejected")
-		} else if has0 {
+			c.Verdict(!unguarded, "C02-R3", key, pos(c, fe.clause), "integer division by literal zero rejected before folding", "an integer division or modulus by a literal zero is folded (the compiler itself panics) instead of rejected", tr...)
+		} else if !unguarded {
 			c.Ok("C02-R3", key, pos(c, fe.clause), "float zero divisor rejected (permitted by the property)")
 		}
 	}
 	c.Floor("C02-R3", 8)
-
-	c.Rule("C02-R4", "PLACEMENT: every call of opt.Optimise in Compile is guarded by !c.disableOptimisation and its error ends the compile")
-	if cf := c.MustFn("C02-R4", "internal/runtime/compiler.(*Compiler).Compile"); cf != nil {
-		g := cf.Graph()
-		calls := g.CallsTo("internal/runtime/compiler/opt.Optimise")
-		for i, h := range calls {
-			guard := false
-			for _, ic := range cf.EnclosingIfs(h.N.Pos()) {
-				if ic.InThen && nospace(exprStr(ic.If.Cond)) == "!c.disableOptimisation" {
-					guard = true
-				}
-			}
-			c.Verdict(guard, "C02-R4", fmt.Sprintf("Optimise call#%d", i+1), pos(c, h.N), "guarded by the option", "the optimiser runs although optimisation is disabled (or the guard is inverted): 'unoptimised' compiles are folded")
-		}
-		if len(calls) == 0 {
-			c.Note("C02-R4", "no Optimise call", pos(c, cf.Decl), "the compiler never optimises: the property holds trivially")
-		}
+	if nerr < 8 {
+		c.Undecided("C02-R3", "error sites", "-", fmt.Sprintf("only %d error-recording sites found in the folder, 8 were confirmed by reading", nerr))
 	}
+
+	c.Rule("C02-R4", "PLACEMENT: every call of opt.Optimise in package compiler is reachable only along a branch that establishes that the disableOptimisation option is false — in the calling function, or at every call of that function")
+	c02placement(c)
 	c.Floor("C02-R4", 1)
 
-	c.Rule("C02-R5", "FOLD-ONLY: in package opt composite literals are only ast.IntLit/ast.FloatLit; VisitAfter returns only its argument (node / n) or the fresh literal r; no field of an existing AST node is assigned (n.SetType on the error path excepted)")
+	c.Rule("C02-R5", "FOLD-ONLY: in package opt composite literals are only ast.IntLit/ast.FloatLit; VisitAfter returns only its argument (the parameter or the variable the type switch binds it to), the fresh literal, or the result of a helper of package opt that returns the node it was given; no field of an existing AST node is assigned (SetType on the error path excepted)")
 	for _, k := range c.Prog.SortedFuncKeys() {
 		of := c.Prog.Funcs[k]
-		if core.Rel(of.Pkg.PkgPath) != "internal/runtime/compiler/opt" || of.Lit != nil {
+		if core.Rel(of.Pkg.PkgPath) != "internal/runtime/compiler/opt" || of.Lit != nil || c.Prog.IsTestSupport(of) {
 			continue
 		}
 		c.Analysed(of)
+		odefs := ft.defs
+		if of != f {
+			odefs = singleDefs(of.Info(), of.Body)
+		}
 		ast.Inspect(of.Body, func(n ast.Node) bool {
 			switch x := n.(type) {
 			case *ast.CompositeLit:
@@ -319,7 +910,7 @@ func c02(c *core.Check) {
 					if s == nil || s.Kind() != types.FieldVal || !strings.Contains(s.Recv().String(), "compiler/ast.") {
 						continue
 					}
-					if exprStr(sel.X) == "r" {
+					if isFreshLiteral(of, odefs, sel.X) {
 						continue
 					}
 					// operand mutation is R2's finding when it is the result assignment; anything else is a rewrite
@@ -339,39 +930,364 @@ func c02(c *core.Check) {
 	}
 	nret := 0
 	ast.Inspect(f.Body, func(n ast.Node) bool {
+		if _, isLit := n.(*ast.FuncLit); isLit {
+			return false
+		}
 		r, ok := n.(*ast.ReturnStmt)
 		if !ok || len(r.Results) != 1 {
 			return true
 		}
 		nret++
 		s := exprStr(r.Results[0])
-		c.Verdict(s == "node" || s == "n" || s == "r", "C02-R5", fmt.Sprintf("VisitAfter return#%d", nret), pos(c, r), "returns "+s, "VisitAfter returns "+s+", neither the unchanged node nor the folded literal")
+		key := fmt.Sprintf("VisitAfter return#%d", nret)
+		switch what, v := c02returned(c, f, ft.defs, r.Results[0], 0); v {
+		case triT:
+			c.Ok("C02-R5", key, pos(c, r), "returns "+s+" ("+what+")")
+		case triF:
+			c.Fail("C02-R5", key, pos(c, r), "VisitAfter returns "+s+", neither the unchanged node nor the folded literal")
+		default:
+			c.Undecided("C02-R5", key, pos(c, r), "VisitAfter returns "+s+": "+what)
+		}
 		return true
 	})
 	c.Floor("C02-R5", 20)
 }
 
-// renameIdents renders e with the given objects renamed.
-func renameIdents(f *core.Func, e ast.Expr, m map[types.Object]string) string {
-	s := exprStr(e)
-	// do it structurally: collect identifier positions
-	type rep struct {
-		pos, end int
-		to       string
-	}
-	var reps []rep
-	base := int(e.Pos())
-	ast.Inspect(e, func(n ast.Node) bool {
-		if id, ok := n.(*ast.Ident); ok {
-			if to, ok := m[f.Info().Uses[id]]; ok {
-				reps = append(reps, rep{int(id.Pos()) - base, int(id.End()) - base, to})
+// vmPushExpr renders the pushed expression of a VM case over the named pop variables.
+func vmPushExpr(vm *vmTable, defs map[types.Object]ast.Expr, e ast.Expr, names map[types.Object]string) (expr, alt, why string) {
+	info := vm.F.Info()
+	sx := &symCtx{info: info, defs: defs}
+	sx.leaf = func(x ast.Expr) (string, bool) {
+		if id, ok := x.(*ast.Ident); ok {
+			if to, ok := names[identObj(info, id)]; ok {
+				return to, true
 			}
 		}
-		return true
-	})
-	// positions refer to source text, not to ExprString output; fall back to token-wise replacement on the printed form
-	_ = reps
-	out := s
+		return "", false
+	}
+	expr = sx.top(e)
+	if be, ok := throughDefs(info, defs, e).(*ast.BinaryExpr); ok && (be.Op == token.ADD || be.Op == token.MUL) {
+		alt = sx.str(be.Y, 0) + be.Op.String() + sx.str(be.X, 0)
+	}
+	return expr, alt, ""
+}
+
+// isFreshLiteral reports whether e denotes a local defined as &ast.IntLit{…} / &ast.FloatLit{…} (or new of them) in fn.
+func isFreshLiteral(fn *core.Func, defs map[types.Object]ast.Expr, e ast.Expr) bool {
+	info := fn.Info()
+	o := identObj(info, e)
+	if o == nil {
+		return false
+	}
+	d, ok := defs[o]
+	if !ok {
+		return false
+	}
+	d = core.Unparen(d)
+	if u, ok := d.(*ast.UnaryExpr); ok && u.Op == token.AND {
+		if cl, ok := core.Unparen(u.X).(*ast.CompositeLit); ok {
+			return litKindOf(info.TypeOf(cl)) != ""
+		}
+	}
+	if call, ok := d.(*ast.CallExpr); ok && fn.CalleeID(call) == "builtin.new" && len(call.Args) == 1 {
+		return litKindOf(info.TypeOf(call.Args[0])) != ""
+	}
+	if _, isId := d.(*ast.Ident); isId {
+		return isFreshLiteral(fn, defs, d)
+	}
+	return false
+}
+
+// c02returned classifies what VisitAfter (or a helper) returns: triT = the node it was given or a fresh literal,
+// triF = positively something else, triU = cannot tell (with the reason).
+func c02returned(c *core.Check, fn *core.Func, defs map[types.Object]ast.Expr, e ast.Expr, depth int) (string, tri) {
+	info := fn.Info()
+	e = core.Unparen(e)
+	if isFreshLiteral(fn, defs, e) {
+		return "the folded literal", triT
+	}
+	if o := identObj(info, e); o != nil {
+		if isParam(fn, o) {
+			return "the unchanged node", triT
+		}
+		// the variable a type switch on a parameter binds
+		bound := false
+		ast.Inspect(fn.Body, func(n ast.Node) bool {
+			ts, ok := n.(*ast.TypeSwitchStmt)
+			if !ok {
+				return true
+			}
+			as, ok := ts.Assign.(*ast.AssignStmt)
+			if !ok || len(as.Rhs) != 1 {
+				return true
+			}
+			ta, ok := core.Unparen(as.Rhs[0]).(*ast.TypeAssertExpr)
+			if !ok {
+				return true
+			}
+			if po := identObj(info, throughDefs(info, defs, ta.X)); po == nil || !isParam(fn, po) {
+				return true
+			}
+			for _, cl := range ts.Body.List {
+				if info.Implicits[cl] == o {
+					bound = true
+				}
+			}
+			return true
+		})
+		if bound {
+			return "the unchanged node", triT
+		}
+		if d, ok := defs[o]; ok && depth < 4 {
+			return c02returned(c, fn, defs, d, depth+1)
+		}
+		if _, isVar := o.(*types.Var); isVar {
+			// a result variable assigned in several places: every assigned value must qualify
+			var vals []ast.Expr
+			ast.Inspect(fn.Body, func(n ast.Node) bool {
+				switch s := n.(type) {
+				case *ast.AssignStmt:
+					for i, l := range s.Lhs {
+						if identObj(info, l) == o {
+							if len(s.Lhs) == len(s.Rhs) {
+								vals = append(vals, s.Rhs[i])
+							} else {
+								vals = append(vals, nil)
+							}
+						}
+					}
+				case *ast.ValueSpec:
+					for i, id := range s.Names {
+						if info.Defs[id] == o && len(s.Values) == len(s.Names) {
+							vals = append(vals, s.Values[i])
+						}
+					}
+				}
+				return true
+			})
+			if len(vals) == 0 || depth >= 4 {
+				return "a variable whose value is not followed", triU
+			}
+			res := triT
+			for _, v := range vals {
+				if v == nil {
+					return "a variable assigned from a multi-value call", triU
+				}
+				if _, r := c02returned(c, fn, defs, v, depth+1); r == triF {
+					return "something else", triF
+				} else if r == triU {
+					res = triU
+				}
+			}
+			return "a variable holding the node or the folded literal", res
+		}
+		return "something else", triF
+	}
+	if call, ok := e.(*ast.CallExpr); ok {
+		cf := fn.CalleeFunc(call)
+		if cf == nil || cf.Lit != nil || depth >= 4 || core.Rel(cf.Pkg.PkgPath) != "internal/runtime/compiler/opt" {
+			if tv, ok := info.Types[call.Fun]; ok && tv.IsType() && len(call.Args) == 1 {
+				return c02returned(c, fn, defs, call.Args[0], depth+1) // a conversion, e.g. ast.Node(n)
+			}
+			return "the result of a call that is not followed", triU
+		}
+		// every return of the helper must be one of its parameters whose argument qualifies, or a fresh literal
+		cdefs := singleDefs(cf.Info(), cf.Body)
+		res := triT
+		nr := 0
+		ast.Inspect(cf.Body, func(n ast.Node) bool {
+			if _, isLit := n.(*ast.FuncLit); isLit {
+				return false
+			}
+			r, ok := n.(*ast.ReturnStmt)
+			if !ok {
+				return true
+			}
+			nr++
+			if len(r.Results) != 1 {
+				res = triU
+				return true
+			}
+			re := throughDefs(cf.Info(), cdefs, r.Results[0])
+			if isFreshLiteral(cf, cdefs, r.Results[0]) {
+				return true
+			}
+			po := identObj(cf.Info(), re)
+			idx := -1
+			if po != nil {
+				idx = paramIndexOfObj(cf, po)
+			}
+			if idx < 0 || idx >= len(call.Args) {
+				if _, v := c02returned(c, cf, cdefs, r.Results[0], depth+1); v != triT {
+					res = triU
+				}
+				return true
+			}
+			switch _, v := c02returned(c, fn, defs, call.Args[idx], depth+1); v {
+			case triF:
+				res = triF
+			case triU:
+				if res != triF {
+					res = triU
+				}
+			}
+			return true
+		})
+		if nr == 0 {
+			return "the result of a helper without return statements", triU
+		}
+		switch res {
+		case triT:
+			return "through helper " + cf.Key + ", which returns the node it is given", triT
+		case triF:
+			return "something else", triF
+		}
+		return "the result of helper " + cf.Key + ", whose returns are not all recognised", triU
+	}
+	if isNilIdent(info, e) {
+		return "nil", triF
+	}
+	switch e.(type) {
+	case *ast.SelectorExpr, *ast.UnaryExpr, *ast.CompositeLit, *ast.IndexExpr:
+		return "something else", triF
+	}
+	return "an expression of unrecognised shape", triU
+}
+
+// paramIndexOfObj returns the index of the parameter obj of f, or -1.
+func paramIndexOfObj(f *core.Func, obj types.Object) int {
+	i := 0
+	for _, fl := range f.Type.Params.List {
+		if len(fl.Names) == 0 {
+			i++
+			continue
+		}
+		for _, n := range fl.Names {
+			if f.Info().Defs[n] == obj {
+				return i
+			}
+			i++
+		}
+	}
+	return -1
+}
+
+// c02placement checks that opt.Optimise runs only when the disableOptimisation option is false.
+func c02placement(c *core.Check) {
+	const optimise = "internal/runtime/compiler/opt.Optimise"
+	isOptionField := func(info *types.Info, e ast.Expr) bool {
+		fld, recv, _ := selField(info, e)
+		return fld == "disableOptimisation" && strings.HasSuffix(recv, "compiler.Compiler")
+	}
+	var inPkg []*core.Func
+	for _, k := range c.Prog.SortedFuncKeys() {
+		cf := c.Prog.Funcs[k]
+		if core.Rel(cf.Pkg.PkgPath) == "internal/runtime/compiler" && !c.Prog.IsTestSupport(cf) {
+			inPkg = append(inPkg, cf)
+		}
+	}
+	// guardedAt: is the point reachable only along edges establishing "option false"?
+	type verdict struct {
+		ok    bool
+		trail []string
+		und   string
+	}
+	var judge func(cf *core.Func, h core.Hit, depth int) verdict
+	judge = func(cf *core.Func, h core.Hit, depth int) verdict {
+		g := cf.Graph()
+		info := cf.Info()
+		defs := singleDefs(info, cf.Body)
+		edges := factEdges(g, defs, func(e ast.Expr, z bool) tri {
+			if !isOptionField(info, e) {
+				return triU
+			}
+			if z {
+				return triT
+			}
+			return triF
+		})
+		// Z = "optimisation disabled"; the call must not be reachable without an edge that implies not-Z
+		tr, unguarded := reachableWithout(g, edges, -1, h.P)
+		if !unguarded {
+			return verdict{ok: true}
+		}
+		// conditions that mention the option but could not be evaluated make the answer uncertain
+		uncertain := false
+		for _, b := range g.C.Blocks {
+			if !b.Live || len(b.Succs) != 2 || len(b.Nodes) == 0 {
+				continue
+			}
+			if _, has := edges[b]; has {
+				continue
+			}
+			ast.Inspect(b.Nodes[len(b.Nodes)-1], func(n ast.Node) bool {
+				if e, ok := n.(ast.Expr); ok && isOptionField(info, e) {
+					uncertain = true
+				}
+				if id, ok := n.(*ast.Ident); ok {
+					if d, ok := defs[identObj(info, id)]; ok {
+						ast.Inspect(d, func(m ast.Node) bool {
+							if e, ok := m.(ast.Expr); ok && isOptionField(info, e) {
+								uncertain = true
+							}
+							return true
+						})
+					}
+				}
+				return true
+			})
+		}
+		if uncertain {
+			return verdict{und: "a condition on disableOptimisation has a shape that is not evaluated"}
+		}
+		// not guarded here: every call of this function (a helper) must be guarded
+		if cf.Lit != nil || depth >= 3 || (cf.Decl != nil && cf.Decl.Name.IsExported()) {
+			return verdict{trail: tr}
+		}
+		ncall := 0
+		for _, caller := range inPkg {
+			for _, ch := range caller.Graph().Calls(func(_ string, call *ast.CallExpr) bool { return caller.CalleeFunc(call) == cf }) {
+				ncall++
+				if v := judge(caller, ch, depth+1); !v.ok {
+					if v.und != "" {
+						return v
+					}
+					return verdict{trail: append(tr, v.trail...)}
+				}
+			}
+		}
+		if ncall == 0 {
+			return verdict{trail: tr}
+		}
+		return verdict{ok: true}
+	}
+	n := 0
+	for _, cf := range inPkg {
+		for _, h := range cf.Graph().CallsTo(optimise) {
+			n++
+			c.Analysed(cf)
+			key := fmt.Sprintf("Optimise call#%d", n)
+			v := judge(cf, h, 0)
+			switch {
+			case v.ok:
+				c.Ok("C02-R4", key, pos(c, h.N), "guarded by the option")
+			case v.und != "":
+				c.Undecided("C02-R4", key, pos(c, h.N), v.und)
+			default:
+				c.Fail("C02-R4", key, pos(c, h.N), "the optimiser runs although optimisation is disabled (or the guard is inverted): 'unoptimised' compiles are folded", v.trail...)
+			}
+		}
+	}
+	if n == 0 {
+		if cf := c.MustFn("C02-R4", "internal/runtime/compiler.(*Compiler).Compile"); cf != nil {
+			c.Note("C02-R4", "no Optimise call", pos(c, cf.Decl), "package compiler never calls the optimiser: the property holds trivially")
+		}
+	}
+}
+
+// renameIdents renders e with the given objects renamed.
+func renameIdents(f *core.Func, e ast.Expr, m map[types.Object]string) string {
+	out := exprStr(e)
 	for obj, to := range m {
 		out = replaceIdent(out, obj.Name(), "\x00"+to+"\x00")
 	}
